@@ -105,6 +105,21 @@ func clauseServes(eng *Engine, o *Obligation, fr *funcResult, prop string) bool 
 			}
 		}
 	}
+	if o.Kind == "postcondition" {
+		if i := strings.LastIndex(o.Clause, "/exit"); i >= 0 {
+			n, _ := strconv.Atoi(o.Clause[i+5:])
+			if n >= 1 && n <= len(ct.Exits) {
+				if tags := ct.Exits[n-1].Tags; len(tags) > 0 {
+					for _, t := range tags {
+						if t == prop {
+							return true
+						}
+					}
+					return false
+				}
+			}
+		}
+	}
 	return fnServes
 }
 
